@@ -90,6 +90,52 @@ def _adaptive_h_app(nx):
     return AdaptiveH
 
 
+def _impact_app(nx):
+    """a fluid block that flies towards a fixed bed: the (fluid, bed) pairs have no neighbours at all during the first
+    steps and start to interact later (neighbour bookkeeping for pairs that were empty must be refreshed)"""
+    from pysph.base.utils import get_particle_array_wcsph
+    from pysph.base.kernels import CubicSpline
+    from pysph.solver.application import Application
+    from pysph.solver.solver import Solver
+    from pysph.sph.integrator import EPECIntegrator
+    from pysph.sph.integrator_step import WCSPHStep
+    from pysph.sph.basic_equations import ContinuityEquation, XSPHCorrection
+    from pysph.sph.wc.basic import MomentumEquation, TaitEOS
+    dx = 1.0/nx
+    hdx, rho0, c0 = 1.2, 1.0, 10.0
+
+    class Impact(Application):
+        def create_particles(self):
+            rng = np.random.RandomState(4321)
+            x, y = np.mgrid[0:1.0:dx, 0:0.5:dx]
+            x = x.ravel() + 0.1*dx*(rng.random_sample(x.size) - 0.5)
+            # lowest fluid row 0.3 dx outside the support (2 h = 2.4 dx) of the top bed row at y = 0
+            y = y.ravel() + 2.7*dx + 0.05*dx*rng.random_sample(y.size)
+            fluid = get_particle_array_wcsph(name='fluid', x=x, y=y, m=np.ones_like(x)*dx*dx*rho0, h=np.ones_like(x)*hdx*dx,
+                                             rho=np.ones_like(x)*rho0, v=-np.ones_like(x))
+            bx, by = np.mgrid[-dx:1.0 + dx:dx, -2*dx:dx/2:dx]
+            bx, by = bx.ravel(), by.ravel()
+            bed = get_particle_array_wcsph(name='bed', x=bx, y=by, m=np.ones_like(bx)*dx*dx*rho0, h=np.ones_like(bx)*hdx*dx,
+                                           rho=np.ones_like(bx)*rho0)
+            return [fluid, bed]
+
+        def create_solver(self):
+            # 0.1 dx per step: the gap closes during the fourth step
+            return Solver(dim=2, kernel=CubicSpline(dim=2), integrator=EPECIntegrator(fluid=WCSPHStep(), bed=WCSPHStep()),
+                          dt=0.1*dx, tf=10.0, adaptive_timestep=False)
+
+        def create_equations(self):
+            return [
+                Group(equations=[TaitEOS(dest='fluid', sources=None, rho0=rho0, c0=c0, gamma=7.0),
+                                 TaitEOS(dest='bed', sources=None, rho0=rho0, c0=c0, gamma=7.0)]),
+                Group(equations=[ContinuityEquation(dest='fluid', sources=['fluid', 'bed']),
+                                 ContinuityEquation(dest='bed', sources=['fluid']),
+                                 MomentumEquation(dest='fluid', sources=['fluid', 'bed'], c0=c0, alpha=0.1, beta=0.0),
+                                 XSPHCorrection(dest='fluid', sources=['fluid'], eps=0.1)]),
+            ]
+    return Impact
+
+
 def make_app(problem, valid_gids):
     if problem == 'drop':
         from pysph.examples.elliptical_drop import EllipticalDrop as Base
@@ -99,6 +145,8 @@ def make_app(problem, valid_gids):
         from pysph.examples.taylor_green import TaylorGreen as Base
     elif problem == 'adapth':
         Base = _adaptive_h_app(_NX[0])
+    elif problem == 'impact':
+        Base = _impact_app(_NX[0])
     elif problem == 'sod':
         # 1-D gas dynamics in a mirror domain, variable smoothing length
         from pysph.examples.gas_dynamics.sod_shocktube import SodShockTube as Base
@@ -120,7 +168,7 @@ _NX = [8]
 
 def problem_args(problem, nx):
     _NX[0] = int(nx)
-    if problem == 'adapth':
+    if problem in ('adapth', 'impact'):
         return []
     if problem == 'drop':
         return ['--nx', str(nx)]
